@@ -131,6 +131,44 @@ pub fn run(ctx: &Ctx) -> (Stats, Report) {
             }
         }
     }
+    // every single-character substitution (all 128 ASCII values) at every position of every
+    // token spelling, alone and inside a composite picture: look-alike bytes that a mask, a
+    // case fold or a range test might let through
+    let mut bases: Vec<String> = vec![];
+    for t in gen::menu() {
+        bases.push(spell(&[t.clone()]));
+        bases.push(gen::spell_cased(&t, 0x2aa));
+        bases.push(gen::spell_cased(&t, 0x355));
+    }
+    for b in ["HH12", "hh24", "T", " ", "YYYY-MM-DD HH24:MI:SS.FF6", "Dy, DD Mon YYYY HH:MI:SS A.M.", "DDD D W WW p.m."] {
+        bases.push(b.to_string());
+    }
+    bases.sort();
+    bases.dedup();
+    let bref = &bases;
+    let s = par_sweep(bases.len() as u64, 1, |range, st| {
+        for bi in range {
+            let base = &bref[bi as usize];
+            let chars: Vec<char> = base.chars().collect();
+            for pos in 0..chars.len() {
+                for c in 0u8..128 {
+                    let mut v = chars.clone();
+                    v[pos] = c as char;
+                    let sub: String = v.into_iter().collect();
+                    for pic in [sub.clone(), format!("YYYY {sub}"), format!("{sub}:MI")] {
+                        st.evaluations += 1;
+                        st.fps.push(hash_bytes(0x19c, pic.as_bytes()));
+                        st.class("single-character-substitution");
+                        if let Err(m) = check_picture(&pic) {
+                            st.fail(bi, Case::new(P, "picture", vec![], vec![pic]), m);
+                            return;
+                        }
+                    }
+                }
+            }
+        }
+    });
+    st.merge(s);
     // blank runs of every length 1..=700 (alone, and between two tokens)
     for n in 1..=700usize {
         for pic in [" ".repeat(n), format!("DD{}MM", " ".repeat(n)), format!("{}SS", " ".repeat(n))] {
